@@ -44,7 +44,7 @@ def failing():
 
 def full():
     ev = []
-    for lab in (None, "", "L", " step 1\nadd buffer\n"):
+    for lab in (None, "", "L", " step 1\nadd buffer\n", "last", "first"):
         kw = {} if lab is None else {"label": lab}
         ev += [
             ["add", "Q", ["A01", "B02"], [7.5, 0], dict(kw)],
